@@ -479,8 +479,14 @@ func writeEvidence(prop, tier string, seed int, cfg PropConfig, results []*FnRes
 	cov["trusted_base"] = tb
 	cov["functions_under_contract"] = fnNames
 	cov["explanation"] = "obligations = safety (idx/slice/nil/div/conv/alloc/panic), pre/post/inv/dec clauses and spec lemmas generated from /repo's current source; discharged = proved unsat for all inputs (no bound) unless listed under bounded"
-	if len(cfg.Bounded) > 0 {
-		cov["bounded"] = cfg.Bounded
+	bnotes := append([]string{}, cfg.Bounded...)
+	for _, r := range results {
+		if r.Contract != nil && r.Contract.Opts["bounded"] != "" {
+			bnotes = append(bnotes, fmt.Sprintf("%s: %s (%d obligations; a bounded stand-in, not counted as proved)", r.Name, r.Contract.Opts["bounded"], len(r.Obls)))
+		}
+	}
+	if len(bnotes) > 0 {
+		cov["bounded"] = bnotes
 	}
 	if len(lines) > 0 {
 		cov["report_lines"] = lines
